@@ -344,7 +344,9 @@ string read_all(FILE* f) {
   for (;;) {
     buffers.emplace_back(read_size, 0);
     ssize_t bytes_read = ::fread(buffers.back().data(), 1, read_size, f);
-    if (bytes_read < 0) {
+    // fread never returns a negative count; a short count is either the end
+    // of the stream or an error, and only ferror can tell them apart
+    if ((bytes_read < read_size) && ferror(f)) {
       throw io_error(fileno(f));
     }
 
